@@ -152,6 +152,9 @@ type c17Gen struct {
 	nForbid    int
 	cacheDel   bool // the gateway has deleted something from the cache index (label only)
 	thorough   bool
+	restarts   int
+	aim        int  // requests still to be aimed at what a restart could have changed (stored / invalidated answers, forbidden prompts)
+	restarted  bool // at least one restart so far
 }
 
 func (g *c17Gen) vec(p c17Pos) []float32 {
@@ -245,8 +248,8 @@ func (g *c17Gen) candidates() []c17Pos {
 	var anchors []c17Pos
 	anchors = append(anchors, g.fpos...)
 	for _, e := range g.m.ents {
-		if e.Present && e.Pos.Kind == "c" {
-			anchors = append(anchors, e.Pos)
+		if (e.Present || e.Gone != "") && e.Pos.Kind == "c" {
+			anchors = append(anchors, e.Pos) // also around answers that were invalidated: they must stay gone
 		}
 	}
 	for _, a := range anchors {
@@ -336,6 +339,11 @@ func (g *c17Gen) evaluate(pos c17Pos, deco c17Deco, stream bool) (c17Cand, bool)
 				}
 			}
 		}
+		for _, e := range g.m.ents {
+			if e.Gone == "invalidated" && c17Classify(c.CacheMetric, float64(c.CacheThr), v, e.Vec) == c17In {
+				cd.cat = "miss-near-invalidated" // at / inside the cache distance of an answer that an invalidation removed
+			}
+		}
 	}
 	return cd, true
 }
@@ -345,7 +353,24 @@ var c17CatWeight = map[string]int{
 	"block-semantic": 4, "block-semantic@cached": 6,
 	"forward-marker": 1, "forward-cache-off": 3,
 	"forward-streaming": 2, "forward-streaming@cached": 6,
-	"cache-hit": 10, "cache-hit-near": 12, "miss-expired": 9, "miss": 4, "miss-same-topic": 6,
+	"cache-hit": 10, "cache-hit-near": 12, "miss-expired": 9, "miss": 4, "miss-same-topic": 6, "miss-near-invalidated": 12,
+}
+
+// classes whose outcome depends on state that has to survive a restart; the
+// first requests after a restart favour them
+var c17RestartAim = map[string]int{
+	"miss-near-invalidated": 5, "cache-hit": 2, "cache-hit-near": 2, "miss-expired": 2,
+	"block-semantic": 2, "block-semantic@cached": 2, "forward-streaming@cached": 1,
+}
+
+func (g *c17Gen) catWeight(cat string) int {
+	w := c17CatWeight[cat]
+	if g.aim > 0 {
+		if f, ok := c17RestartAim[cat]; ok {
+			w *= 1 + f
+		}
+	}
+	return w
 }
 
 func (g *c17Gen) pickCand(cands []c17Cand, label string) c17Cand {
@@ -360,16 +385,16 @@ func (g *c17Gen) pickCand(cands []c17Cand, label string) c17Cand {
 	}
 	sort.Strings(cats)
 	for _, k := range cats {
-		total += c17CatWeight[k]
+		total += g.catWeight(k)
 	}
 	x := c17Int(g.rt, label+"-class", 0, total-1)
 	cat := cats[0]
 	for _, k := range cats {
-		if x < c17CatWeight[k] {
+		if x < g.catWeight(k) {
 			cat = k
 			break
 		}
-		x -= c17CatWeight[k]
+		x -= g.catWeight(k)
 	}
 	l := byCat[cat]
 	return l[c17Int(g.rt, label+"-place", 0, len(l)-1)]
@@ -422,12 +447,18 @@ func (g *c17Gen) genReq(i int) (c17Step, bool) {
 	rt, c := g.rt, g.c
 	st := c17Step{Op: "req"}
 	var deco c17Deco
-	wantDeny := c17Int(rt, "want-deny", 0, 99) < 26
-	wantMarker := c17Int(rt, "want-marker", 0, 99) < 20
+	// the first requests after a restart are mostly plain non-streaming ones: those are the requests whose outcome
+	// depends on the cache contents that had to survive it
+	pDeny, pMarker, pStream := 26, 20, 4
+	if g.aim > 0 {
+		pDeny, pMarker, pStream = 12, 8, 2
+	}
+	wantDeny := c17Int(rt, "want-deny", 0, 99) < pDeny
+	wantMarker := c17Int(rt, "want-marker", 0, 99) < pMarker
 	switch x := c17Int(rt, "stream", 0, 9); {
 	case x <= 4:
 		st.Stream = 1
-	case x == 5:
+	case x < 10-pStream:
 		st.Stream = 0
 	default:
 		st.Stream = 2
@@ -497,6 +528,12 @@ func (g *c17Gen) genReq(i int) (c17Step, bool) {
 	}
 	if g.cacheDel && strings.HasPrefix(cd.cat, "cache-hit") {
 		st.Intent += "+after-delete" // a hit that needs the index to stay searchable after the gateway deleted from it
+	}
+	if g.restarted {
+		st.Intent += "+after-restart"
+	}
+	if g.aim > 0 {
+		g.aim--
 	}
 
 	// message list
@@ -589,6 +626,16 @@ func (g *c17Gen) genForbid(i int) (c17Step, bool) {
 	return c17Step{Op: "forbid", ID: id, Vec: v, Intent: "forbid"}, true
 }
 
+// hasCited: some stored answer that is still present cites a document
+func (g *c17Gen) hasCited() bool {
+	for _, e := range g.m.ents {
+		if e.Present && len(e.Sources) > 0 {
+			return true
+		}
+	}
+	return false
+}
+
 func (g *c17Gen) genInvalidate(i int) (c17Step, bool) {
 	if !g.c.CacheOn || len(g.docs) == 0 {
 		return c17Step{}, false
@@ -621,6 +668,7 @@ func (g *c17Gen) genInvalidate(i int) (c17Step, bool) {
 		}
 		if c17Has(e.Sources, doc) {
 			e.Present = false
+			e.Gone = "invalidated"
 			g.cacheDel = true
 			n++
 		}
@@ -763,6 +811,28 @@ func c17GenCase() *rapid.Generator[*c17Case] {
 		// steps
 		nSteps := c17Int(rt, "n-steps", 2, 8)
 		sleeps := 0
+		// a restart (close gateway and engine, reopen on the same directory) is placed where durable state has just
+		// changed - right after an invalidation, a cache save, a late forbidden prompt - or anywhere; it is not a
+		// history step of its own budget: the requests that follow it are what judges it.
+		restart := func(why string, pct int) {
+			if g.restarts >= 2 || c17Int(rt, "restart-"+why, 0, 99) >= pct {
+				return
+			}
+			if n := len(c.Steps); n > 0 {
+				last := c.Steps[n-1]
+				if last.Op == "restart" {
+					return
+				}
+				if strings.HasPrefix(last.Intent, "forward-marker") && c.CacheOn {
+					return // the gateway may still be storing that answer in the background: nothing to judge, and the engine must not be closed under it
+				}
+			}
+			g.restarts++
+			g.restarted = true
+			g.aim = 3
+			c.Steps = append(c.Steps, c17Step{Op: "restart", Intent: "restart+" + why})
+			nSteps++
+		}
 		for i := 0; len(c.Steps) < nSteps && i < nSteps+4; i++ {
 			x := c17Int(rt, "op", 0, 99)
 			var st c17Step
@@ -772,6 +842,8 @@ func c17GenCase() *rapid.Generator[*c17Case] {
 				st, ok = g.genForbid(i)
 			case x < 22 && len(c.Steps) > 0:
 				st, ok = g.genInvalidate(i)
+			case x >= 90 && x < 96 && len(c.Steps) > 0 && g.hasCited():
+				st, ok = g.genInvalidate(i) // more invalidations while there is something to remove
 			case x < 34 && c.CacheOn && c.TTLSec > 0 && c.TTLSec < 60 && sleeps < 2 && g.nDyn > 0:
 				st, ok = c17Step{Op: "sleep", SleepMs: c.TTLSec*1000 + 150, Intent: "sleep"}, true
 				sleeps++
@@ -780,10 +852,32 @@ func c17GenCase() *rapid.Generator[*c17Case] {
 						e.GenSt = c17Expired
 					}
 				}
+			case x >= 96:
+				restart("anywhere", 100)
+				continue
 			default:
 				st, ok = g.genReq(i)
 			}
-			if ok {
+			if !ok {
+				continue
+			}
+			c.Steps = append(c.Steps, st)
+			switch {
+			case st.Intent == "invalidate-removes":
+				restart("right-after-invalidate-removes", 50)
+			case st.Intent == "invalidate-noop":
+				restart("right-after-invalidate-noop", 15)
+			case st.Op == "forbid":
+				restart("right-after-forbid", 35)
+			case st.Op == "req" && strings.HasPrefix(st.Intent, "miss"):
+				restart("right-after-cache-save", 18)
+			case st.Op == "req" && strings.HasPrefix(st.Intent, "cache-hit"):
+				restart("right-after-cache-hit", 6)
+			}
+		}
+		// a restart is judged by what follows it
+		for i := 0; i < 3 && len(c.Steps) > 0 && c.Steps[len(c.Steps)-1].Op == "restart"; i++ {
+			if st, ok := g.genReq(nSteps + 4 + i); ok {
 				c.Steps = append(c.Steps, st)
 			}
 		}
@@ -816,6 +910,23 @@ func c17Labels(c *c17Case) (labels []string, nontrivial bool) {
 		}
 		base := strings.SplitN(in, "+", 2)[0]
 		set["has:"+base] = true
+		if st.Op == "restart" {
+			set["has:"+strings.Replace(in, "+", "-", 1)] = true // has:restart-right-after-invalidate-removes, ...
+			continue
+		}
+		if strings.Contains(in, "+after-restart") {
+			set["has:request-after-restart"] = true
+			switch {
+			case base == "miss-near-invalidated":
+				set["has:request-after-restart-near-an-invalidated-entry"] = true
+			case strings.HasPrefix(base, "cache-hit"):
+				set["has:cache-hit-after-restart"] = true
+			case strings.HasPrefix(base, "block-semantic"):
+				set["has:block-semantic-after-restart"] = true
+			case base == "miss-expired":
+				set["has:miss-expired-after-restart"] = true
+			}
+		}
 		if strings.Contains(in, "+marker") {
 			set["has:blocked-with-marker"] = true
 		}
